@@ -913,6 +913,19 @@ def gen_C08():
                         "  " + tr.expr(assigned_expr(fn, "agg_pred_margin_dist"))))
     if fl.ret is None:
         raise TranslateError("get_national_summary_estimates: return")
+    # the independent-contests mode (national_summary_correlation = False): the states of the two quantile realisations are leaves
+    env2 = dict(env)
+    env2["self.national_summary_correlation"] = "false"
+    env2["lower_states"] = "(B: lowS)"
+    env2["upper_states"] = "(B: upS)"
+    fl2 = NFlow(src, env2)
+    fl2.run(fn.body)
+    for k in ("potential_losses", "potential_gains"):
+        if fl2.env.get(k) is None:
+            raise TranslateError(f"get_national_summary_estimates (independent contests): {k}")
+    cp2 = [("pred", "Rat"), ("lowS", "Bool"), ("upS", "Bool"), ("uncalled", "Bool"), ("stop", "Bool")]
+    out.append(lean_def("potential_loss_independent", cp2, "Rat", "  " + fl2.final(fl2.env["potential_losses"])))
+    out.append(lean_def("potential_gain_independent", cp2, "Rat", "  " + fl2.final(fl2.env["potential_gains"])))
     out.append(_strlist("returned", [ast.unparse(assigned_expr(fn, "national_summary_estimates"))]))
     out.append(_strlist("weights_matching", [ast.unparse(assigned_expr(fn, "nat_sum_data_dict_sorted")),
                                              ast.unparse(assigned_expr(fn, "nat_sum_data_dict_sorted_vals"))]))
